@@ -138,6 +138,28 @@ func breakersFor(id, verif string) []breaker {
 var plusRe = regexp.MustCompile(`(?m)^\+\+\+ b/(\S+)`)
 
 // overlayFor applies the patch to private copies of the files it touches and returns the -overlay argument.
+// neutralsFor: the archived behaviour-preserving refactorings written for property id.
+func neutralsFor(id, verif string) []breaker {
+	var out []breaker
+	metas, _ := filepath.Glob(verif + "/neutral/*/meta.json")
+	sort.Strings(metas)
+	for _, m := range metas {
+		b, err := os.ReadFile(m)
+		if err != nil {
+			continue
+		}
+		var meta struct {
+			Property string `json:"property"`
+		}
+		if json.Unmarshal(b, &meta) != nil || meta.Property != id {
+			continue
+		}
+		dir := filepath.Dir(m)
+		out = append(out, breaker{name: filepath.Base(dir), kind: "refactoring", patch: dir + "/patch.diff"})
+	}
+	return out
+}
+
 func overlayFor(b breaker, repo, tmp string) (string, error) {
 	pb, err := os.ReadFile(b.patch)
 	if err != nil {
@@ -239,6 +261,29 @@ func runThorough(id, repo, verif, outDir string) int {
 			}
 		}
 	}
+	// 2b. behaviour-preserving refactorings: the check must stay silent
+	nTried, nSilent := 0, 0
+	for _, b := range neutralsFor(id, verif) {
+		ov, err := overlayFor(b, repo, tmp)
+		if err != nil {
+			results = append(results, subResult{Name: b.name, Kind: b.kind, Exit: -1, Note: err.Error()})
+			fmt.Printf("thorough %s: refactoring %s skipped: %v\n", id, b.name, err)
+			continue
+		}
+		nTried++
+		r := runSub(self, id, repo, verif, tmp, "-overlay", ov)
+		r.Name, r.Kind = b.name, b.kind
+		results = append(results, r)
+		if r.Exit == 0 {
+			nSilent++
+			fmt.Printf("thorough %s: refactoring %s: silent, %d obligations (%.1fs)\n", id, b.name, r.Obligations, r.WallS)
+		} else {
+			fmt.Printf("BROKEN: property=%s thorough: behaviour-preserving refactoring %s makes the check answer exit %d (%s): a false alarm of the machinery\n", id, b.name, r.Exit, strings.Join(r.Rules, ", "))
+			if exit == 0 {
+				exit = 2
+			}
+		}
+	}
 	// 3. record in the evidence file
 	evp := filepath.Join(outDir, "evidence", id+".json")
 	if b, err := os.ReadFile(evp); err == nil {
@@ -252,8 +297,10 @@ func runThorough(id, repo, verif, outDir string) int {
 			cov["thorough_breakers_tried"] = tried
 			cov["thorough_breakers_detected"] = detected
 			cov["thorough_breakers_skipped"] = skipped
+			cov["thorough_refactorings_tried"] = nTried
+			cov["thorough_refactorings_silent"] = nSilent
 			cov["thorough_runs"] = results
-			cov["thorough_rule"] = "each archived breaking change and each reverted repair of this property is applied through a loader overlay (in memory; /repo untouched) and must make the check report a new violation; the check is also repeated under two other GOOS/GOARCH contexts"
+			cov["thorough_rule"] = "each archived breaking change and each reverted repair of this property is applied through a loader overlay (in memory; /repo untouched) and must make the check report a new violation; each archived behaviour-preserving refactoring written for this property (neutral/<name>/patch.diff) is applied the same way and must leave the check silent; the check is also repeated under two other GOOS/GOARCH contexts"
 			ev["coverage"] = cov
 			if nb, err := json.MarshalIndent(ev, "", " "); err == nil {
 				os.WriteFile(evp, nb, 0o644)
